@@ -613,6 +613,8 @@ def run(ctx):
                        "a DAP error document (status >= 400) for '<supported file>.<unknown response>' is counted as refused"]
     ctx.proof_phase()
     explore(ctx, ctx.tier)
+    from collections import Counter
+    ctx.extra["oracle_failure_kinds"] = dict(Counter(f["what"] for f in ctx.oracle_failures))
     return ctx.finish(search=lambda c: explore(c, "thorough", search=True))
 
 
